@@ -681,6 +681,27 @@ class BoolFlow:
         return self._val(st, op)
 
 
+def is_field_read(body, op, adt, field, depth=4):
+    """Is the operand exactly a read of `<place>.field` of struct `adt` (directly, or through single-definition
+    temporaries / casts)?  Flow-insensitive provenance cannot tell this from "depends on the field"."""
+    pl = op_place(op)
+    if pl is None or depth < 0:
+        return False
+    fs = [p for p in pl["p"] if isinstance(p, dict) and "n" in p]
+    if fs:
+        last = [p for p in pl["p"] if p != "*"][-1]
+        return isinstance(last, dict) and last.get("n") == field and last_seg(norm(last.get("adt", ""))) == adt
+    if pl["p"]:
+        return False
+    ds = body.defs().get(pl["l"], [])
+    if len(ds) != 1 or ds[0][2] != "assign":
+        return False
+    rv = ds[0][3]["rv"]
+    if rv["k"] in ("use", "cast"):
+        return is_field_read(body, rv["a"][0], adt, field, depth - 1)
+    return False
+
+
 def comparison_sites(body, pred, prov=None):
     """Equality comparisons `a == b` / `a != b` (MIR BinaryOp or PartialEq::eq/ne call) whose operand roots satisfy
     `pred(roots_a, roots_b)` in either order.  -> [(start_bb, start_si, result_local, value_meaning_equal, site_bb)]:
